@@ -438,6 +438,9 @@ Proof.
   - apply ttl_pass_keeps.
   - apply policy_pass_keeps.
   - apply cleanup_keeps.
+  - destruct (job_fires c disabled dt).
+    + eapply keeps_trans; [|apply cleanup_keeps]. apply keeps_dk. reflexivity.
+    + apply keeps_dk. reflexivity.
   - apply force_delete_keeps. destruct (N.eqb n n0) eqn:E; cbn in U.
     + right. destruct wb as [|[] t]; try discriminate. eauto.
     + left. apply N.eqb_neq. exact E.
@@ -685,6 +688,13 @@ Proof.
   destruct allok; cbn [fst]; auto. apply D. apply with_file_wf. auto.
 Qed.
 
+Lemma cleanup_wf : forall c pol u scan order s, wf s -> wf (fst (cleanup c pol u scan order s)).
+Proof.
+  intros. unfold cleanup. destruct (should_aggro c u && pol && negb (c_alow c =? 0)).
+  - apply policy_pass_wf; auto.
+  - cbn. apply ttl_pass_wf; auto.
+Qed.
+
 Lemma step_wf : forall o s, wf s -> wf (fst (step s o)).
 Proof.
   intros o s W. destruct o; cbn.
@@ -700,9 +710,8 @@ Proof.
   - destruct W as (A & B & C). repeat split; cbn; auto; [constructor | intros x []].
   - apply ttl_pass_wf; auto.
   - apply policy_pass_wf; auto.
-  - unfold cleanup. destruct (should_aggro c u && pol && negb (c_alow c =? 0)).
-    + apply policy_pass_wf; auto.
-    + cbn. apply ttl_pass_wf; auto.
+  - apply cleanup_wf; auto.
+  - destruct (job_fires c disabled dt); [apply cleanup_wf|]; exact W.
   - apply force_delete_wf; auto.
 Qed.
 
